@@ -30,6 +30,20 @@ deriving Repr, DecidableEq
 
 abbrev M := Except Fault
 
+/-- one pass through a loop body: leave the loop with a result, or go round again with a new state -/
+inductive Step (σ ρ : Type) where
+  | done (r : ρ)
+  | next (x : σ)
+
+/-- a `while` loop run with explicit fuel; running out of fuel is the fault `spin` -/
+def iterate {σ ρ : Type} (step : σ → M (Step σ ρ)) : Nat → σ → M ρ
+  | 0, _ => throw .spin
+  | fuel + 1, x =>
+    match step x with
+    | .error e => .error e
+    | .ok (.done r) => pure r
+    | .ok (.next y) => iterate step fuel y
+
 /-! ## C strings -/
 
 /-- what a `const char*` consumer sees: the bytes before the first NUL -/
@@ -230,21 +244,24 @@ def Sock.readLine (s : Sock) : Bytes × Sock :=
 
 /-! ## `Url::decode` (index loop, as written) -/
 
-def urlDecodeLoop (q0 : Bytes) : Nat → Nat → Bytes → M Bytes
-  | 0, _, _ => throw .spin
-  | fuel + 1, i, acc =>
-    if i < q0.length then do
-      let c ← at? q0 i
-      if c == 37 then
-        if i + 2 > q0.length then pure acc.reverse          -- `i > length() - 2`: break
-        else do
-          let b0 ← at? q0 (i + 1)
-          let b1 ← at? q0 (i + 2)
-          urlDecodeLoop q0 fuel (i + 3) (hexByte b0 b1 :: acc)
-      else urlDecodeLoop q0 fuel (i + 1) (c :: acc)
-    else pure acc.reverse
+structure DecSt where
+  i : Nat
+  acc : Bytes     -- output so far, reversed
 
-def urlDecode (q0 : Bytes) : M Bytes := urlDecodeLoop q0 (q0.length + 1) 0 []
+/-- body of the `for (i = 0; i < q0.length(); i++)` loop of `Url::decode` -/
+def decodeStep (q0 : Bytes) (x : DecSt) : M (Step DecSt Bytes) :=
+  if x.i < q0.length then do
+    let c ← at? q0 x.i
+    if c == 37 then
+      if x.i + 2 > q0.length then pure (.done x.acc.reverse)          -- `i > length() - 2`: break
+      else do
+        let b0 ← at? q0 (x.i + 1)
+        let b1 ← at? q0 (x.i + 2)
+        pure (.next ⟨x.i + 3, hexByte b0 b1 :: x.acc⟩)
+    else pure (.next ⟨x.i + 1, c :: x.acc⟩)
+  else pure (.done x.acc.reverse)
+
+def urlDecode (q0 : Bytes) : M Bytes := iterate (decodeStep q0) (q0.length + 1) ⟨0, []⟩
 
 /-! ## the path: `fix()`, `contains("..")`, `replace("..", "")`, `split('/')` -/
 
@@ -333,30 +350,31 @@ def sContinue : Bytes := [72, 84, 84, 80, 47, 49, 46, 49, 32, 49, 48, 48, 32, 67
 /-- "HTTP/1.1 417 Too big\r\n\r\n" -/
 def sTooBig : Bytes := [72, 84, 84, 80, 47, 49, 46, 49, 32, 52, 49, 55, 32, 84, 111, 111, 32, 98, 105, 103, 13, 10, 13, 10]
 
-/-- `HttpMessage::readHeaders()` -/
-def readHeadersLoop : Nat → Sock → Dic → Bytes → Bytes → M (Sock × Dic)
-  | 0, _, _, _, _ => throw .spin
-  | fuel + 1, s, h, name, value =>
-    let r := s.readLine
-    let line := r.1
-    let s := r.2
-    if cstr line == [13] then pure (s, h)
-    else do
-      let c0 ← at? line 0
-      if cIsSpace c0 then
-        -- folded line: appended to the *first* line's value (headerValue is not updated)
-        readHeadersLoop fuel s (setHeader h name (value ++ trimmed line)) name value
-      else
-        let line := trimmed line
-        match findByte 58 (cstr line) with
-        | none => pure ({ s with closed := true }, h)          -- `_socket->close(); return;`
-        | some i => do
-          let name ← substring? line 0 i
-          let rest ← substring? line (i + 1) line.length
-          let value := trimmed rest
-          readHeadersLoop fuel s (setHeader h name value) name value
+structure HSt where
+  s : Sock
+  h : Dic
+  name : Bytes     -- `headerName`
+  value : Bytes    -- `headerValue`
 
-def readHeaders (s : Sock) : M (Sock × Dic) := readHeadersLoop (s.inp.length + 2) s [] [] []
+/-- body of the `while (line = readLine(), line != "\r")` loop of `HttpMessage::readHeaders()` -/
+def headersStep (x : HSt) : M (Step HSt (Sock × Dic)) :=
+  let r := x.s.readLine
+  if cstr r.1 == [13] then pure (.done (r.2, x.h))
+  else do
+    let c0 ← at? r.1 0
+    if cIsSpace c0 then
+      -- folded line: appended to the *first* line's value (headerValue is not updated)
+      pure (.next { x with s := r.2, h := setHeader x.h x.name (x.value ++ trimmed r.1) })
+    else
+      let line := trimmed r.1
+      match findByte 58 (cstr line) with
+      | none => pure (.done ({ r.2 with closed := true }, x.h))          -- `_socket->close(); return;`
+      | some i => do
+        let name ← substring? line 0 i
+        let rest ← substring? line (i + 1) line.length
+        pure (.next ⟨r.2, setHeader x.h name (trimmed rest), name, trimmed rest⟩)
+
+def readHeaders (s : Sock) : M (Sock × Dic) := iterate headersStep (s.inp.length + 2) ⟨s, [], [], []⟩
 
 structure Blk where
   s : Sock
@@ -364,46 +382,53 @@ structure Blk where
   body : Bytes
   ret : Bool       -- the function returned from inside the inner loop
 
-/-- the inner `while (maxToRead > 0)` loop of `readBody` -/
-def readBlocks : Nat → Sock → Int → Int → Bytes → M Blk
-  | 0, _, _, _, _ => throw .spin
-  | fuel + 1, s, mx, size, body =>
-    if mx ≤ 0 then pure ⟨s, size, body, false⟩
-    else
-      let r := s.rawRead (min mx 16000).toNat
-      let got := r.1
-      let s := r.2
-      if got.length == 0 then pure ⟨s, size, body, true⟩
-      else
-        let body := body ++ got
-        let mx := mx - (got.length : Int)
-        if size != 0 then
-          let size := size - (got.length : Int)
-          if size ≤ 0 then pure ⟨s, size, body, true⟩ else readBlocks fuel s mx size body
-        else readBlocks fuel s mx size body
+structure BSt where
+  s : Sock
+  mx : Int        -- `maxToRead`
+  size : Int
+  body : Bytes
 
-/-- the outer `while (!end)` loop of `readBody` -/
-def readBodyLoop (chunked : Bool) : Nat → Sock → Int → Bytes → M (Sock × Bytes)
-  | 0, _, _, _ => throw .spin
-  | fuel + 1, s, size, body =>
-    let av := s.available
-    if av < 0 then pure (s, body)                       -- (`waitInput(10)` is true: data or EOF is pending)
-    else if chunked then do
-      let r := s.readLine
-      let mx := hexToInt r.1
-      let s := r.2
-      let b ← readBlocks (s.inp.length + 1) s mx size body
-      if b.ret then pure (b.s, b.body)
-      else
-        let r2 := b.s.rawRead 2
-        if r2.1.length < 2 then pure (r2.2, b.body)
-        else if mx == 0 then pure (r2.2, b.body)
-        else readBodyLoop chunked fuel r2.2 b.size b.body
-    else do
-      let mx : Int := if av ≤ 0 then 1 else av
-      let mx := if size > 0 && mx > size then size else mx
-      let b ← readBlocks (s.inp.length + 1) s mx size body
-      if b.ret then pure (b.s, b.body) else readBodyLoop chunked fuel b.s b.size b.body
+/-- body of the inner `while (maxToRead > 0)` loop of `readBody` -/
+def blocksStep (x : BSt) : M (Step BSt Blk) :=
+  if x.mx ≤ 0 then pure (.done ⟨x.s, x.size, x.body, false⟩)
+  else
+    let r := x.s.rawRead (min x.mx 16000).toNat
+    if r.1.length == 0 then pure (.done ⟨r.2, x.size, x.body, true⟩)
+    else
+      let body := x.body ++ r.1
+      let mx := x.mx - (r.1.length : Int)
+      if x.size != 0 then
+        let size := x.size - (r.1.length : Int)
+        if size ≤ 0 then pure (.done ⟨r.2, size, body, true⟩) else pure (.next ⟨r.2, mx, size, body⟩)
+      else pure (.next ⟨r.2, mx, x.size, body⟩)
+
+def readBlocks (s : Sock) (mx size : Int) (body : Bytes) : M Blk :=
+  iterate blocksStep (s.inp.length + 1) ⟨s, mx, size, body⟩
+
+structure BodySt where
+  s : Sock
+  size : Int
+  body : Bytes
+
+/-- body of the outer `while (!end)` loop of `readBody` -/
+def bodyStep (chunked : Bool) (x : BodySt) : M (Step BodySt (Sock × Bytes)) :=
+  let av := x.s.available
+  if av < 0 then pure (.done (x.s, x.body))            -- (`waitInput(10)` is true: data or EOF is pending)
+  else if chunked then do
+    let r := x.s.readLine
+    let mx := hexToInt r.1
+    let b ← readBlocks r.2 mx x.size x.body
+    if b.ret then pure (.done (b.s, b.body))
+    else
+      let r2 := b.s.rawRead 2
+      if r2.1.length < 2 then pure (.done (r2.2, b.body))
+      else if mx == 0 then pure (.done (r2.2, b.body))
+      else pure (.next ⟨r2.2, b.size, b.body⟩)
+  else do
+    let mx : Int := if av ≤ 0 then 1 else av
+    let mx := if x.size > 0 && mx > x.size then x.size else mx
+    let b ← readBlocks x.s mx x.size x.body
+    if b.ret then pure (.done (b.s, b.body)) else pure (.next ⟨b.s, b.size, b.body⟩)
 
 /-- `HttpMessage::readBody()` -/
 def readBody (s : Sock) (h : Dic) : M (Sock × Bytes) :=
@@ -411,20 +436,15 @@ def readBody (s : Sock) (h : Dic) : M (Sock × Bytes) :=
   let chunked := cstr (header h sTransferEncoding) == sChunked
   if hasHeader h sContentLength && cstr (header h sContentLength) == [48] then pure (s, [])
   else if !hasHeader h sContentLength && !chunked then pure (s, [])
-  else readBodyLoop chunked (s.inp.length + 2) s size []
+  else iterate (bodyStep chunked) (s.inp.length + 2) ⟨s, size, []⟩
 
-/-- target → (raw path, query string, fragment) -/
-def splitTarget (res : Bytes) : M (Bytes × Bytes × Bytes) := do
-  let h ← indexOfByteFrom? res 35 0
-  let hpos : Bool := match h with | some k => k > 0 | none => false
-  let hv := h.getD 0
-  let fragment ← if hpos then substring? res (hv + 1) res.length else pure []
-  let pathend := if hpos then hv else res.length
-  let q ← indexOfByteFrom? res 63 0
+/-- the `?` part of the split: `q > 0 && q < pathend` (then the query ends at `h > 0 ? h : pathend`, which is
+    `pathend` itself, and the path ends at `q`) -/
+def splitQuery (res : Bytes) (q : Option Nat) (pathend : Nat) (fragment : Bytes) : M (Bytes × Bytes × Bytes) :=
   match q with
   | some qv =>
-    if qv > 0 && qv < pathend then do
-      let qs ← substring? res (qv + 1) (if hpos then hv else pathend)
+    if qv > 0 ∧ qv < pathend then do
+      let qs ← substring? res (qv + 1) pathend
       let raw ← substring? res 0 qv
       pure (raw, qs, fragment)
     else do
@@ -434,26 +454,74 @@ def splitTarget (res : Bytes) : M (Bytes × Bytes × Bytes) := do
     let raw ← substring? res 0 pathend
     pure (raw, [], fragment)
 
+/-- the `#` part: `h > 0` cuts the path at `h` and makes the rest the fragment -/
+def splitFragment (res : Bytes) (h q : Option Nat) : M (Bytes × Bytes × Bytes) :=
+  match h with
+  | some hv =>
+    if hv > 0 then do
+      let fragment ← substring? res (hv + 1) res.length
+      splitQuery res q hv fragment
+    else splitQuery res q res.length []
+  | none => splitQuery res q res.length []
+
+/-- target → (raw path, query string, fragment) -/
+def splitTarget (res : Bytes) : M (Bytes × Bytes × Bytes) := do
+  let h ← indexOfByteFrom? res 35 0
+  let q ← indexOfByteFrom? res 63 0
+  splitFragment res h q
+
+structure ReqLine where
+  method : Bytes
+  res : Bytes
+  proto : Bytes
+
+/-- the split of the request line at its first two spaces -/
+def parseRequestLine (cmd : Bytes) : M (Option ReqLine) := do
+  let i? ← indexOfByteFrom? cmd 32 0
+  match i? with
+  | none => pure none
+  | some i => do
+    let j? ← indexOfByteFrom? cmd 32 (i + 1)
+    match j? with
+    | none => pure none
+    | some j => do
+      let method ← substring? cmd 0 i
+      let res ← substring? cmd (i + 1) j
+      let p ← substring? cmd (j + 1) cmd.length
+      pure (some ⟨method, res, trimmed p⟩)
+
+structure Target where
+  path : Bytes
+  query : Bytes
+  fragment : Bytes
+  parts : List Bytes
+
+/-- everything `read()` derives from the request target -/
+def parseTarget (res : Bytes) : M Target := do
+  let t ← splitTarget res
+  let path ← sanitize t.1
+  pure ⟨path, t.2.1, t.2.2, pathParts path⟩
+
+/-- `Expect: 100-continue` handling -/
+def expectContinue (s : Sock) (hdrs : Dic) : Sock :=
+  if cstr (header hdrs sExpect) == s100continue then
+    (if myatoi 64 (cstr (header hdrs sContentLength)) < 128000000 then s.write sContinue else s.write sTooBig)
+  else s
+
 /-- `HttpRequest::read()` -/
-def read (s : Sock) : M (Req × Sock) := do
+def read (s : Sock) : M (Req × Sock) :=
   let r := s.readLine
-  let cmd := r.1
-  let s := r.2
-  if s.err != 0 || cmd.length == 0 then return ({}, s)
-  let some i ← indexOfByteFrom? cmd 32 0 | return ({}, s)
-  let some j ← indexOfByteFrom? cmd 32 (i + 1) | return ({}, s)
-  let method ← substring? cmd 0 i
-  let res ← substring? cmd (i + 1) j
-  let proto := trimmed (← substring? cmd (j + 1) cmd.length)
-  let (s, hdrs) ← readHeaders s
-  let s := if cstr (header hdrs sExpect) == s100continue then
-      (if myatoi 64 (cstr (header hdrs sContentLength)) < 128000000 then s.write sContinue else s.write sTooBig)
-    else s
-  let (s, body) ← readBody s hdrs
-  let (raw, qs, fragment) ← splitTarget res
-  let path ← sanitize raw
-  return ({ method := method, res := res, proto := proto, path := path, query := qs, fragment := fragment,
-            parts := pathParts path, headers := hdrs, body := body }, s)
+  if r.2.err != 0 || r.1.length == 0 then pure ({}, r.2)
+  else do
+    let rl? ← parseRequestLine r.1
+    match rl? with
+    | none => pure ({}, r.2)
+    | some rl => do
+      let hs ← readHeaders r.2
+      let b ← readBody (expectContinue hs.1 hs.2) hs.2
+      let t ← parseTarget rl.res
+      pure ({ method := rl.method, res := rl.res, proto := rl.proto, path := t.path, query := t.query,
+              fragment := t.fragment, parts := t.parts, headers := hs.2, body := b.2 }, b.1)
 
 /-- `HttpRequest::query()` -/
 def queryDic (r : Req) : M Dic := if r.query.length != 0 then parseQuery r.query else pure []
@@ -499,22 +567,28 @@ def respond (r : Req) (s : Sock) : Sock × Bool :=
       (s.write (responseBytes proto h [])).write body
   (s, (cstr r.proto == sHttp10 && cstr hconn != sKeepAlive) || cstr hconn == sClose)
 
-/-- `HttpServer::serve(Socket client)`: the requests handed to the application, in order -/
-def serveLoop : Nat → Sock → List Req → M (Sock × List Req)
-  | 0, _, _ => throw .spin
-  | fuel + 1, s, acc =>
-    -- `client.connected()`: handle valid, no error, and not (readable with nothing available)
-    if s.closed || s.err != 0 || s.inp.isEmpty then pure (s, acc.reverse)
-    else do
-      let (r, s) ← read s
-      if s.err != 0 || r.method.length == 0 || r.path.length == 0 || r.proto.length == 0 then pure (s, acc.reverse)
-      else
-        let (s, stop) := respond r s
-        -- OPTIONS is answered by `handleOptions`; every other request is handed to the application
-        let acc := if cstr r.method == sOptions then acc else r :: acc
-        if stop then pure (s, acc.reverse) else serveLoop fuel s acc
+structure SrvSt where
+  s : Sock
+  acc : List Req     -- requests handed to the application so far, newest first
 
-def serve (s : Sock) : M (Sock × List Req) := serveLoop (s.inp.length + 1) s []
+/-- body of the `while (client.connected() && …)` loop of `HttpServer::serve(Socket client)` -/
+def serveStep (x : SrvSt) : M (Step SrvSt (Sock × List Req)) :=
+  -- `client.connected()`: handle valid, no error, and not (readable with nothing available)
+  if x.s.closed || x.s.err != 0 || x.s.inp.isEmpty then pure (.done (x.s, x.acc.reverse))
+  else do
+    let rs ← read x.s
+    let r := rs.1
+    let s := rs.2
+    if s.err != 0 || r.method.length == 0 || r.path.length == 0 || r.proto.length == 0 then
+      pure (.done (s, x.acc.reverse))
+    else
+      let ans := respond r s
+      -- OPTIONS is answered by `handleOptions`; every other request is handed to the application
+      let acc := if cstr r.method == sOptions then x.acc else r :: x.acc
+      if ans.2 then pure (.done (ans.1, acc.reverse)) else pure (.next ⟨ans.1, acc⟩)
+
+/-- the requests handed to the application, in order, and the final socket state -/
+def serve (s : Sock) : M (Sock × List Req) := iterate serveStep (s.inp.length + 1) ⟨s, []⟩
 
 /-! ## `Url::Url` -/
 
@@ -527,6 +601,39 @@ deriving Repr
 
 def sSchemeSep : Bytes := [58, 47, 47]
 
+/-- `port = (portstart == 0) ? 0 : (int)url.substring(portstart, pathstart)` -/
+def urlPort (url : Bytes) (portstart pathstart : Nat) : M Int :=
+  if portstart == 0 then pure 0 else do
+    let p ← substring? url portstart pathstart
+    pure (myatoi 32 (cstr p))
+
+/-- the IPv6 branch (`url[hoststart] == '['`, `hoststart` already advanced) -/
+def urlBracket (url protocol path : Bytes) (hoststart pathstart : Nat) : M UrlR := do
+  let he ← indexOfByteFrom? url 93 hoststart
+  match he with
+  | none => pure {}
+  | some hostend =>
+    if hostend > pathstart then pure {}          -- no closing bracket before the path: `*this = Url()`
+    else do
+      let c2 ← at? url (hostend + 1)
+      let portstart := if c2 == 58 then hostend + 2 else 0
+      let host ← substring? url hoststart hostend
+      let port ← urlPort url portstart pathstart
+      pure { protocol := protocol, host := host, path := path, port := port }
+
+def urlPlain (url protocol path : Bytes) (hoststart pathstart : Nat) : M UrlR := do
+  let j ← indexOfByteFrom? url 58 hoststart
+  let hostend := match j with
+    | some jv => if jv < pathstart then jv else pathstart
+    | none => pathstart
+  let portstart := match j with
+    | some jv => if jv < pathstart then jv + 1 else 0
+    | none => 0
+  let host ← substring? url hoststart hostend
+  let port ← urlPort url portstart pathstart
+  pure { protocol := protocol, host := host, path := path, port := port }
+
+/-- `Url::Url(const String& url)` -/
 def parseUrl (url : Bytes) : M UrlR := do
   let i ← indexOfSubFrom? url sSchemeSep 0
   let ipos : Bool := match i with | some k => k > 0 | none => false
@@ -538,30 +645,7 @@ def parseUrl (url : Bytes) : M UrlR := do
   let path ← substring? url pathstart url.length
   let path := if cstr path == [] then [47] else path
   let c ← at? url hoststart
-  if c == 91 then do
-    let hoststart := hoststart + 1
-    let he ← indexOfByteFrom? url 93 hoststart
-    match he with
-    | none => pure {}
-    | some hostend =>
-      if hostend > pathstart then pure {}
-      else do
-        let c2 ← at? url (hostend + 1)
-        let portstart := if c2 == 58 then hostend + 2 else 0
-        let host ← substring? url hoststart hostend
-        let port ← if portstart == 0 then pure 0 else do
-          let p ← substring? url portstart pathstart
-          pure (myatoi 32 (cstr p))
-        pure { protocol := protocol, host := host, path := path, port := port }
-  else do
-    let j ← indexOfByteFrom? url 58 hoststart
-    let (hostend, portstart) := match j with
-      | some jv => if jv < pathstart then (jv, jv + 1) else (pathstart, 0)
-      | none => (pathstart, 0)
-    let host ← substring? url hoststart hostend
-    let port ← if portstart == 0 then pure 0 else do
-      let p ← substring? url portstart pathstart
-      pure (myatoi 32 (cstr p))
-    pure { protocol := protocol, host := host, path := path, port := port }
+  if c == 91 then urlBracket url protocol path (hoststart + 1) pathstart
+  else urlPlain url protocol path hoststart pathstart
 
 end AslModel.HttpParse
